@@ -563,6 +563,20 @@ pub fn check_set(rng: &mut SplitMix64, m: usize, items: &[(u64, f64)]) -> Vec<(S
             bad.push(("batch-2".into(), format!("ProbMinHash2: one HashMap batch followed by hash_item of every pair differs from item-wise hash_item ({} items, m={})", items.len(), m), inp(json!({"a": s2, "b": mixed.0}))));
         }
     }
+    // all weights multiplied by a power of two (exact in binary floating point: every race value scales by the same
+    // factor, every comparison is preserved): the four signatures must not change.  Only when nothing over- or underflows.
+    if items.iter().all(|(_, w)| *w > 1e-100 && *w < 1e100) {
+        for k in [-70i32, -57, 40] {
+            let f = (2.0f64).powi(k);
+            let scaled: Vec<(u64, f64)> = base.iter().map(|(id, w)| (*id, *w * f)).collect();
+            for (name, same) in [("ProbMinHash3", sig3(m, &scaled).0 == s3), ("ProbMinHash3a", sig3a(m, &[scaled.clone()]).0 == s3a1),
+                                 ("ProbMinHash2", sig2(m, &scaled).0 == s2), ("ProbMinHash3aSha", sig3asha(m, &[scaled.clone()]).0 == ssha)] {
+                if !same {
+                    bad.push(("scale".into(), format!("{}: multiplying every weight by 2^{} changes the signature ({} items, m={})", name, k, items.len(), m), inp(json!({"scale_log2": k}))));
+                }
+            }
+        }
+    }
     // an already inserted pair again
     let mut dup = base.clone();
     dup.push(base[rng.below(base.len() as u64) as usize]);
